@@ -540,6 +540,26 @@ def h_clock_gettime(vm, st, name, argv, ins):
     return 0
 
 
+def h_fs_read(vm, st, name, argv, ins):
+    """std::fs::read(path): the bytes of the in-memory file, optionally cut at a symbolic length
+    (vm.opts['truncate'] = {path: length term}) -- the crash-during-write model of C09"""
+    p = vm.concretize(st, argv[1]); n = vm.concretize(st, argv[2])
+    path = bytes(st.mem.read_cells(p, n)).decode('utf-8', 'replace')
+    if path not in st.files:
+        raise Inconclusive("fs::read of a file that was never written: " + path)
+    content = st.files[path]
+    L = len(content)
+    buf = st.mem.alloc(max(L, 1), 1, 'heap', name='file:' + path)
+    buf.cells[:L] = list(content)
+    if L == 0:
+        buf.size = 0
+    k = (vm.opts.get('truncate') or {}).get(path, L)
+    outs = vm.run(st, '@fake_read', [argv[0], buf.base, k, L])
+    if len(outs) != 1 or outs[0].kind != 'ret':
+        raise Inconclusive("fake_read: %r" % (outs,))
+    return ('switch!', outs[0].st)
+
+
 def install(vm):
     E = vm.externs
 
@@ -576,6 +596,7 @@ def install(vm):
     add(lambda n: n == '@bcmp', h_bcmp)
     add(lambda n: n == '@strlen', h_strlen)
     add(lambda n: n == '@getenv', lambda vm, st, name, argv, ins: 0)      # no environment variable is set
+    add(lambda n: '3std2fs4read5inner' in n, h_fs_read, True)
     add(lambda n: n in ('@open64', '@open'), h_open)
     add(lambda n: n == '@close', h_close)
     add(lambda n: n == '@write', h_write)
@@ -583,7 +604,13 @@ def install(vm):
     add(lambda n: n in ('@lseek64', '@lseek'), h_lseek)
     add(lambda n: n in ('@fstat64', '@fstat'), h_fstat)
     add(lambda n: n in ('@statx', '@syscall'), h_enosys)
+    def h_getrandom(vm, st, name, argv, ins):
+        n = vm.concretize(st, argv[1])
+        vm.store_bytes(st, argv[0], [0x42] * n)       # fixed hash keys: behaviour under other seeds is outside every claim
+        return n
+    add(lambda n: n == '@getrandom', h_getrandom)
     add(lambda n: n == '@dlsym', lambda vm, st, name, argv, ins: 0)
+    add(lambda n: n in ('@fcntl', '@fcntl64', '@ioctl', '@poll', '@signal', '@sigaction', '@pthread_self'), lambda vm, st, name, argv, ins: 0)
     add(lambda n: n == '@__errno_location', h_errno_location)
     add(lambda n: n == '@clock_gettime', h_clock_gettime)
     add(lambda n: n in ('@abort', '@exit', '@_exit') or 'std7process5abort' in n or '3std3sys.*abort_internal' in n, h_abort)
